@@ -8,7 +8,8 @@ RULE = ('histories of put(submit | segment | enquire_link) / get(response) / han
         '{1 s, 2.5 s, 15 s}: responses and probes at ttl-1, ttl, ttl+1 quanta and at random offsets, 1..12 outstanding '
         'requests, segmented messages among them, a far-future probe at the end; one model line per operation plus store '
         'dumps. distinct-nontrivial = distinct (ttl class, #outstanding bucket, any answered in time?, any expired?, any '
-        'segmented?, probe offset class)')
+        'segmented?, probe offset class); plus interleaved histories: 1..5 overdue requests with a sweep of another task or a late '
+        'response handled while the first time-out notification is suspended (predicate only)')
 TRUSTED = ['Lean 4.33.0 kernel', 'axioms: propext, Quot.sound',
            'tools/corr/corrlib.py: time.monotonic of correlator.py replaced by a virtual clock in quanta of 1/1024 s '
            '(floats exact); recording hook']
@@ -148,11 +149,57 @@ def nested_history(ttl_q, offset):
     return cases
 
 
+def interleaved_history(ttl_q, k, what, which):
+    """k overdue requests; while the time-out notification of the first one reported is suspended, another task's
+    correlator operation runs to completion: a sweep, or the receiver handling a late response (for the request being
+    reported, for another overdue one, for a number nobody uses).  Every request must end up with exactly one
+    outcome.  No model line (the tier 2 model has atomic operations): predicate only."""
+    from aiosmpplib.protocol import SmppMessage
+    sim = CorrSim(ttl_resp_q=ttl_q)
+    nested = {}
+    try:
+        for i in range(1, k + 1):
+            sim.op_put(100 + i, sim.submit(i, 50 + i, 0))
+
+        async def op(reported):
+            if what == 'sweep':
+                await sim.corr._remove_expired()
+                return
+            target = {'self': reported.sequence_num, 'unknown': 9999}.get(
+                what, 1 + (reported.sequence_num - 1 + which) % k)
+            r = sim.resp('submitresp', target, 0, 'id%d' % target)
+            pdu = r.pdu()
+            res = await sim.esme._handle_response(pdu, SmppMessage.parse_header(pdu[:16]))
+            nested['target'] = target
+            nested['log'] = getattr(res, 'log_id', '') if res is not None and res is not sim.em._SUBMIT_SM_SEGMENT else ''
+        sim.nested_op = op
+        _ln, out = sim.op_put(100 + k + ttl_q + 5, sim.request('enq', 5000))
+        # a later operation gives stragglers their chance
+        _ln2, out2 = sim.op_put(100 + k + ttl_q + 50, sim.request('enq', 5001))
+        out = out + out2
+        fail = None
+        for i in range(1, k + 1):
+            n_to = out.count('E=submit:%d:' % i)
+            n_resp = 1 if nested.get('log') == 'L%d' % (50 + i) else 0
+            if n_to + n_resp != 1 and fail is None:
+                fail = ('request %d of %d overdue ones: %d time-out reports and %d attributed responses, with %s interleaved in the '
+                        'first notification' % (i, k, n_to, n_resp, 'a sweep' if what == 'sweep' else 'the late response for request %s' % nested.get('target')))
+        line = '# interleaved %d %d %s %d' % (ttl_q, k, what, which)
+        return [Case(line, line, ('interleaved', k if k < 3 else 3, what), fail,
+                     {'op': 'interleaved', 'ttl': ttl_q, 'k': k, 'what': what, 'which': which})]
+    finally:
+        sim.close()
+
+
 def generate(rng, tier):
     thorough = tier == 'thorough'
     for ttl in (Q, 15 * Q):
         for off in (1, 2, 500):
             yield from nested_history(ttl, off)
+        for k in (1, 2, 3, 5):
+            for what in ('sweep', 'self', 'other', 'unknown'):
+                for which in ((1, 2) if what == 'other' and k > 2 else (1,)):
+                    yield from interleaved_history(ttl, k, what, which)
     for _ in range(1200 if thorough else 300):
         ttl = rng.choice((Q, Q * 5 // 2, 15 * Q))
         n = rng.randrange(1, 13)
@@ -160,6 +207,8 @@ def generate(rng, tier):
 
 
 def replay(inp):
+    if inp.get('op') == 'interleaved':
+        return interleaved_history(inp['ttl'], inp['k'], inp['what'], inp['which'])[-1]
     if inp.get('op') == 'nested':
         return nested_history(inp['ttl'], inp['offset'])[-1]
     # a recorded history is replayed on the model only (the real run needs the generator's seed)
